@@ -2,7 +2,7 @@
 PROP = dict(
     pkg="c18", level="fault_enumeration",
     technique=("crash-point / cancellation-point enumeration over the real migration.Runner with the real migrators on generated "
-               "previous-layout databases (fault-injecting KeyValueStore: crash after commit k, cancel at DB operation k, slow-read gate), "
+               "previous-layout databases (fault-injecting KeyValueStore: crash after commit k, cancel at DB operation k, I/O error returned by DB operation k (reads and commits; staged writes into a batch cannot fail in the real stores) after which the process exits and is restarted, slow-read gate), "
                "optional flags --new-state and --prune-mode each switched on at a drawn restart, the real history-prune migration in the loop; "
                "differential against the uninterrupted upgrade (under the final flags) and the natively written database above the image's retention floor; "
                "trace checker for the runner bookkeeping"),
